@@ -204,7 +204,15 @@ def block_twin(b, s0):
 
 # ---------------------------------------------------------------------------------------------
 #  derive(Animate) shapes (C17)
-def shape_struct(sh, name="T"):
+# field names that coincide with locals / fields of the derive's own expansion (one shape in three uses them)
+HAZARD_FIELDS = ["normalized_time", "frame_index", "values", "time", "timescale", "boundary_times"]
+
+
+def field_namer(i):
+    return (lambda p: HAZARD_FIELDS[p - 1]) if i % 3 == 2 else (lambda p: "a%d" % p)
+
+
+def shape_struct(sh, name="T", fn=lambda p: "a%d" % p):
     """Rust source of the struct(s) of a shape; returns (source, target type name, animated slots, present slots)"""
     slots = sh["slots"]
     present = [p for p in range(1, 7) if slots[p - 1]["ty"] != "none"]
@@ -215,14 +223,14 @@ def shape_struct(sh, name="T"):
     for p in order:
         sl = slots[p - 1]
         f = ""
-        if sl["doc"]: f += "    /// documentation of field a%d\n" % p
+        if sl["doc"]: f += "    /// documentation of field %s\n" % fn(p)
         if p in marked: f += "    #[animate]\n"
         else: f += {0: "", 1: "    #[allow(dead_code)]\n", 2: "    #[rustfmt::skip]\n", 3: "    #[doc(hidden)]\n"}[sl["attr"]]
         if p in marked and sl["attr"] == 1: f += "    #[allow(dead_code)]\n"      # a second attribute AFTER the marker
-        f += "    pub a%d: %s,\n" % (p, sl["ty"])
+        f += "    pub %s: %s,\n" % (fn(p), sl["ty"])
         fields.append(f)
     if sh["remote"]:
-        src = "#[derive(Clone, Debug, Default, PartialEq)]\npub struct Foreign {\n%s}\n" % "".join("    pub a%d: %s,\n" % (p, slots[p - 1]["ty"]) for p in order)
+        src = "#[derive(Clone, Debug, Default, PartialEq)]\npub struct Foreign {\n%s}\n" % "".join("    pub %s: %s,\n" % (fn(p), slots[p - 1]["ty"]) for p in order)
         src += "#[derive(Animate)]\n#[animate(remote = \"Foreign\")]\n%sstruct %s {\n%s}\n" % (vis, name, "".join(fields))
         target = "Foreign"
     else:
@@ -233,14 +241,15 @@ def shape_struct(sh, name="T"):
 
 def shape_module(i, line):
     sh = line["shape"]
-    src, target, present = shape_struct(sh)
+    fn = field_namer(i)
+    src, target, present = shape_struct(sh, fn=fn)
     animated = line["animated"]
     slots = sh["slots"]
     cast = lambda p: slots[p - 1]["ty"]
-    sent = ", ".join("a%d: %s as %s" % (p, ("%d.5" % (900 + p)) if p <= 3 else str(240 + p), cast(p)) for p in present)
-    srcv = ", ".join("a%d: %s as %s" % (p, ("%d.25" % (40 + p)) if p <= 3 else str(40 + p), cast(p)) for p in present)
-    get = " ".join("%d => v.a%d as f64," % (p, p) for p in present)
-    setk = " ".join("%d => k.a%d(v as %s)," % (p, p, cast(p)) for p in animated)
+    sent = ", ".join("%s: %s as %s" % (fn(p), ("%d.5" % (900 + p)) if p <= 3 else str(240 + p), cast(p)) for p in present)
+    srcv = ", ".join("%s: %s as %s" % (fn(p), ("%d.25" % (40 + p)) if p <= 3 else str(40 + p), cast(p)) for p in present)
+    get = " ".join("%d => v.%s as f64," % (p, fn(p)) for p in present)
+    setk = " ".join("%d => k.%s(v as %s)," % (p, fn(p), cast(p)) for p in animated)
     m = "pub mod sh%d {\n    #![allow(dead_code, unused_variables, unused_mut)]\n    use mina::prelude::*;\n    use serde_json::Value;\n" % i
     m += "".join("    " + l + "\n" for l in src.split("\n") if l)
     m += "    pub type Target = %s;\n" % target
@@ -255,7 +264,7 @@ def shape_module(i, line):
     m += "            let e = kf[\"e\"].as_i64().unwrap(); if e != 0 { k = k.easing(harness::common::easing(e)); }\n            b = b.keyframe(k);\n        }\n        b.build()\n    }\n"
     m += "    pub fn copy_timeline(src: &Target) -> <T as Animate>::Timeline { T::timeline().keyframe(T::keyframe_from(src, 1.0)).build() }\n"
     a0 = animated[0]
-    m += "    pub fn override_timeline(src: &Target) -> <T as Animate>::Timeline { T::timeline().keyframe(T::keyframe_from(src, 1.0).a%d(77 as %s).a%d(78 as %s)).build() }\n" % (a0, cast(a0), a0, cast(a0))
+    m += "    pub fn override_timeline(src: &Target) -> <T as Animate>::Timeline { T::timeline().keyframe(T::keyframe_from(src, 1.0).%s(77 as %s).%s(78 as %s)).build() }\n" % (fn(a0), cast(a0), fn(a0), cast(a0))
     m += "    pub fn run(line: &Value, t: &mut harness::tl::Tally, i: usize) { crate::run_shape(line, t, i, &build(line), &copy_timeline(&source()), &override_timeline(&source()), %d, &sentinel, &source(), &get); }\n}\n" % a0
     return m
 
